@@ -354,10 +354,86 @@ def stringify(node: Node) -> str:
         return "x"
 
 
+# How tightly each kind of expression binds, loosest first. This follows the "Operator precedence"
+# table of the Python language reference, and is used to decide where parentheses are needed.
+_BINARY_PRECEDENCE = {
+    "or": 3,
+    "and": 4,
+    "|": 7,
+    "^": 8,
+    "&": 9,
+    "<<": 10,
+    ">>": 10,
+    "+": 11,
+    "-": 11,
+    "*": 12,
+    "/": 12,
+    "//": 12,
+    "%": 12,
+    "@": 12,
+    "**": 14,
+}
+
+_ATOM_PRECEDENCE = 16
+
+
+def _precedence(node: Node) -> int:
+    match node:
+        case AssignmentExpr():
+            return 0
+
+        case LambdaExpr():
+            return 1
+
+        case ConditionalExpr():
+            return 2
+
+        case OpExpr(op=op):
+            return _BINARY_PRECEDENCE.get(op, _ATOM_PRECEDENCE)
+
+        case UnaryExpr(op="not"):
+            return 5
+
+        case ComparisonExpr():
+            return 6
+
+        case UnaryExpr():
+            return 13
+
+        case AwaitExpr():
+            return 15
+
+    return _ATOM_PRECEDENCE
+
+
+def _stringify_operand(node: Node, precedence: int) -> str:
+    """Stringify `node`, wrapped in parentheses if it binds less tightly than `precedence`."""
+
+    text = _stringify(node)
+
+    return f"({text})" if _precedence(node) < precedence else text
+
+
+def _stringify_item(node: Node, precedence: int = 1) -> str:
+    """Same as `stringify()`, but for a sub-expression: add parentheses where they are needed."""
+
+    try:
+        return _stringify_operand(node, precedence)
+
+    except ValueError:  # pragma: no cover
+        return "x"
+
+
 def _stringify(node: Node) -> str:
     match node:
         case MemberExpr(expr=expr, name=name):
-            return f"{_stringify(expr)}.{name}"
+            base = _stringify_operand(expr, _ATOM_PRECEDENCE)
+
+            if isinstance(expr, IntExpr):
+                # `1.real` is a syntax error
+                base = f"({base})"
+
+            return f"{base}.{name}"
 
         case NameExpr(name=name):
             return unmangle_name(name)
@@ -389,15 +465,15 @@ def _stringify(node: Node) -> str:
 
             for k, v in items:
                 if k:
-                    parts.append(f"{stringify(k)}: {stringify(v)}")
+                    parts.append(f"{_stringify_item(k)}: {_stringify_item(v)}")
 
                 else:
-                    parts.append(f"**{stringify(v)}")
+                    parts.append(f"**{_stringify_item(v, 7)}")
 
             return f"{{{', '.join(parts)}}}"
 
         case TupleExpr(items=items):
-            inner = ", ".join(stringify(x) for x in items)
+            inner = ", ".join(_stringify_item(x) for x in items)
 
             if len(items) == 1:
                 # single element tuples need a trailing comma
@@ -415,11 +491,14 @@ def _stringify(node: Node) -> str:
 
                         output += _stringify(arg)[1:-1]
 
-                    elif fmt:
-                        output += f"{{{_stringify(arg)}:{fmt}}}"
-
                     else:
-                        output += f"{{{_stringify(arg)}}}"
+                        field = _stringify_operand(arg, 2)
+
+                        if field.startswith("{"):
+                            # `{{` would be an escaped brace
+                            field = f" {field}"
+
+                        output += f"{{{field}:{fmt}}}" if fmt else f"{{{field}}}"
 
                 output += '"'
                 return output
@@ -428,13 +507,13 @@ def _stringify(node: Node) -> str:
 
             for arg_name, kind, arg in zip(arg_names, arg_kinds, args):
                 if kind == ArgKind.ARG_NAMED:
-                    call_args.append(f"{arg_name}={_stringify(arg)}")
+                    call_args.append(f"{arg_name}={_stringify_operand(arg, 1)}")
 
                 elif kind == ArgKind.ARG_STAR:
-                    call_args.append(f"*{_stringify(arg)}")
+                    call_args.append(f"*{_stringify_operand(arg, 1)}")
 
                 elif kind == ArgKind.ARG_STAR2:
-                    call_args.append(f"**{_stringify(arg)}")
+                    call_args.append(f"**{_stringify_operand(arg, 1)}")
 
                 else:
                     call_args.append(_stringify(arg))
@@ -442,25 +521,52 @@ def _stringify(node: Node) -> str:
             return f"{_stringify(node.callee)}({', '.join(call_args)})"
 
         case IndexExpr(base=base, index=index):
-            return f"{stringify(base)}[{stringify(index)}]"
+            match index:
+                case TupleExpr(items=items) if any(isinstance(x, SliceExpr) for x in items):
+                    # A slice can only be written directly inside of the brackets
+                    subscript = ", ".join(_stringify_item(x) for x in items)
+
+                    if len(items) == 1:
+                        subscript += ","
+
+                case _:
+                    subscript = _stringify_item(index)
+
+            return f"{_stringify_item(base, _ATOM_PRECEDENCE)}[{subscript}]"
 
         case SliceExpr(begin_index=begin_index, end_index=end_index, stride=stride):
-            begin = stringify(begin_index) if begin_index else ""
-            end = stringify(end_index) if end_index else ""
-            stride = f":{stringify(stride)}" if stride else ""  # type: ignore[assignment]
+            begin = _stringify_item(begin_index, 2) if begin_index else ""
+            end = _stringify_item(end_index, 2) if end_index else ""
+            stride = f":{_stringify_item(stride, 2)}" if stride else ""  # type: ignore[assignment]
 
             return f"{begin}:{end}{stride}"
 
         case OpExpr(left=left, op=op, right=right):
-            return f"{_stringify(left)} {op} {_stringify(right)}"
+            precedence = _precedence(node)
+
+            if op == "**":
+                # right associative, and binds tighter than a unary operator on its left only
+                lhs = _stringify_operand(left, precedence + 1)
+                rhs = _stringify_operand(right, 13)
+
+            elif op in {"and", "or"}:
+                # Mypy nests chains of `and`/`or` to the right
+                lhs = _stringify_operand(left, precedence + 1)
+                rhs = _stringify_operand(right, precedence)
+
+            else:
+                lhs = _stringify_operand(left, precedence)
+                rhs = _stringify_operand(right, precedence + 1)
+
+            return f"{lhs} {op} {rhs}"
 
         case ComparisonExpr():
             parts = []
 
             for op, operand in zip(node.operators, node.operands):
-                parts.extend((_stringify(operand), op))
+                parts.extend((_stringify_operand(operand, 7), op))
 
-            parts.append(_stringify(node.operands[-1]))
+            parts.append(_stringify_operand(node.operands[-1], 7))
 
             return " ".join(parts)
 
@@ -468,7 +574,7 @@ def _stringify(node: Node) -> str:
             if op not in "+-~":
                 op += " "
 
-            return f"{op}{_stringify(expr)}"
+            return f"{op}{_stringify_operand(expr, _precedence(node))}"
 
         case LambdaExpr(
             arg_names=arg_names,
@@ -481,17 +587,17 @@ def _stringify(node: Node) -> str:
             else:
                 args = ""  # type: ignore
 
-            body = _stringify(expr)
+            body = _stringify_operand(expr, 1)
 
             return f"lambda{args}: {body}"
 
         case ListExpr(items=items):
-            inner = ", ".join(stringify(x) for x in items)
+            inner = ", ".join(_stringify_item(x) for x in items)
 
             return f"[{inner}]"
 
         case SetExpr(items=items):
-            inner = ", ".join(stringify(x) for x in items)
+            inner = ", ".join(_stringify_item(x) for x in items)
 
             return f"{{{inner}}}"
 
@@ -512,7 +618,10 @@ def _stringify(node: Node) -> str:
             return f"for {_stringify(index)} in {_stringify(expr)}: {_stringify(stmt)}"
 
         case ConditionalExpr(if_expr=if_true, cond=cond, else_expr=if_false):
-            return f"{_stringify(if_true)} if {_stringify(cond)} else {_stringify(if_false)}"
+            lhs = _stringify_operand(if_true, 3)
+            rhs = _stringify_operand(if_false, 1)
+
+            return f"{lhs} if {_stringify_operand(cond, 3)} else {rhs}"
 
         case DelStmt(expr=expr):
             return f"del {_stringify(expr)}"
@@ -521,10 +630,10 @@ def _stringify(node: Node) -> str:
             return _stringify(expr)
 
         case AwaitExpr(expr=expr):
-            return f"await {_stringify(expr)}"
+            return f"await {_stringify_operand(expr, _ATOM_PRECEDENCE)}"
 
         case AssignmentExpr(target=lhs, value=rhs):
-            return f"{_stringify(lhs)} := {_stringify(rhs)}"
+            return f"{_stringify(lhs)} := {_stringify_operand(rhs, 1)}"
 
     raise ValueError
 
